@@ -401,13 +401,21 @@ pub const ATTR_OIDS: [&[u64]; 4] =
 
 /// a DER SET with one or two small values
 pub fn gen_attr(rng: &mut Rng) -> PAttr {
+	let oid = *rng.pick(&ATTR_OIDS);
+	if oid == ATTR_OIDS[0] {
+		// challengePassword has a defined value syntax (DirectoryString) that decoders check
+		let pw = ascii_text(rng, 20);
+		let mut v = vec![0x31, (pw.len() + 2) as u8, 0x0c, pw.len() as u8];
+		v.extend(pw.as_bytes());
+		return PAttr { oid, values: v };
+	}
 	let mut vals: Vec<Vec<u8>> = (0..1 + rng.below(2)).map(|_| gen_der_blob(rng)).collect();
 	vals.sort();
 	let body: Vec<u8> = vals.concat();
 	let mut v = vec![0x31];
 	v.extend(crate::props::certcase::der_len(body.len()));
 	v.extend(body);
-	PAttr { oid: *rng.pick(&ATTR_OIDS), values: v }
+	PAttr { oid, values: v }
 }
 
 /// CSR-expressible parameters
